@@ -1,6 +1,6 @@
 (* C03 - Messages stay inside their topic and are never echoed to their sender.
    Only statements, each closed by [exact] of a lemma proved in Proofs/Hub_proofs.v. *)
-From Relay Require Import Base.Prelude Model.Hub Proofs.Hub_proofs.
+From Relay Require Import Base.Prelude Model.Hub Proofs.Hub_proofs Proofs.Hub_more_proofs.
 
 (* every history: each message queued, being written or already written to connection i was received by the hub from a writer on exactly that connection's topic, other than itself, while connection i was a member *)
 Theorem C03_queue_inv :
@@ -62,6 +62,43 @@ Theorem C03_topic_of_path_spec :
     topic_of_path (String slash (seg ++ String slash (t ++ rest)))%string = t.
 Proof. exact topic_of_path_spec. Qed.
 Print Assumptions C03_topic_of_path_spec.
+
+(* every connection the hub holds was registered in the history, under that name, topic, capabilities and capacity *)
+Theorem C03_conn_from_register :
+  forall evs c, In c (conns (run init evs)) ->
+    exists r, In (Register r) evs /\ name c = name r /\ topic c = topic r /\
+              can_read c = can_read r /\ can_write c = can_write r /\ cap c = cap r.
+Proof. exact conn_from_register. Qed.
+Print Assumptions C03_conn_from_register.
+
+(* every history whose registrations all come out of websocket admission: a message held by a connection was sent by ANOTHER connection whose token names the same topic, string for string, and whose path scans to the same topic - whatever the spelling of either path *)
+Theorem C03_isolation_by_token_topic :
+  forall evs c m,
+    (forall r, In (Register r) evs -> exists rq, ws_accept rq = Some r) ->
+    In c (conns (run init evs)) -> In m (content c) ->
+    exists rs rqs rc rqc,
+      In (Register rs) evs /\ ws_accept rqs = Some rs /\ name rs = m_name m /\
+      In (Register rc) evs /\ ws_accept rqc = Some rc /\ name rc = name c /\
+      r_token_topic rqs = r_token_topic rqc /\ r_token_topic rqs = m_topic m /\
+      topic_of_path (slashify (r_path rqs)) = topic_of_path (slashify (r_path rqc)) /\
+      name rs <> name rc.
+Proof. exact isolation_by_token_topic. Qed.
+Print Assumptions C03_isolation_by_token_topic.
+
+(* non-vacuity of the two above: the witness history below consists of accepted registrations (see C03_witness); here the hypothesis itself is exhibited for a short one *)
+Example C03_accepted_history_witness :
+  let mk := fun n p t => match ws_accept (mkreq n p t ["read"; "write"]%string 2) with
+                         | Some c => c | None => mkclient 0 "" false false 0 [] [] [] Closed 0 end in
+  let h := [Register (mk 1 "/session/a" "a"); Register (mk 2 "/session/a/" "a"); Recv 1 1 [10]]%N%string in
+  (forall r, In (Register r) h -> exists rq, ws_accept rq = Some r) /\
+  exists c, In c (conns (run init h)) /\ In (mkmsg 1 "a" 1 [10]%N) (content c).
+Proof.
+  split.
+  - intros r [H|[H|[H|[]]]]; try discriminate; injection H as <-.
+    + exists (mkreq 1 "/session/a" "a" ["read"; "write"]%string 2). reflexivity.
+    + exists (mkreq 2 "/session/a/" "a" ["read"; "write"]%string 2). reflexivity.
+  - vm_compute. eexists. split; [right; left; reflexivity|]. left. reflexivity.
+Qed.
 
 (* non-vacuity: two topics "a" and "ab" (one a prefix of the other), two connections on each,
    all accepted through ws_accept; messages cross inside a topic only, nobody hears itself, and
